@@ -26,7 +26,7 @@ PROP_MODULES = {
     "C07": ["Tramp.Props.C07"],
     "C08": ["Tramp.Props.C08"],
     "C11": ["Tramp.Props.C11"],
-    "C06": ["Tramp.Props.C06", "Tramp.Props.C06Live", "Tramp.Props.C06Term", "Tramp.Props.C11", "Tramp.Props.C17"],
+    "C06": ["Tramp.Props.C06", "Tramp.Props.C06Live", "Tramp.Props.C06Term", "Tramp.Props.C06Fair", "Tramp.Props.C11", "Tramp.Props.C17"],
     "C09": ["Tramp.Props.C09"],
     "C14": ["Tramp.Props.C14", "Tramp.Props.C14Live", "Tramp.Props.C14Term"],
 }
@@ -70,7 +70,8 @@ OBLIGATIONS = {
             "c11_timeout_fails", "c17_dispatch", "once_step", "c06_at_most_once_run", "c11_deadline_bound",
             "c11_due_after_one_timeout", "ownerCont_meas", "c06_owner_steps_decrease", "c06_measure_wf",
             "linv_step", "progress_any", "c06_can_always_answer",
-            "c06_internal_steps_decrease", "c06_term_measure_wf", "c06_no_infinite_internal_run", "c06_rest_waits"],
+            "c06_internal_steps_decrease", "c06_term_measure_wf", "c06_no_infinite_internal_run", "c06_rest_waits",
+            "keep_step", "owner_step_result", "FairRun.stuck_contra", "FairRun.c06_fair_run_answers"],
     "C09": ["c09_succeeded_settles", "c09_free_settles", "c09_pending_completed_settles", "c09_stale_pending_frees",
             "c09_pending_pays", "c09_from_wait", "c09_pinned_wedge"],
     "C14": ["c14_frame", "c14_own_state_only", "c14_frozen", "c14_no_pooling", "lift_run", "c14_progress_despite_frozen", "grun_reach", "c14_progress_despite_frozen_global", "c01_global", "c02_global", "c05_global", "c08_global", "c04_global", "c11_global", "rh_wf", "c14_no_infinite_internal_run"],
